@@ -49,7 +49,7 @@ GENERIC_ATOMS = ["a", "1", "-", ".", ":", "/", "a-", "1.", "a1", ".1", "-a", "a:
                  "a/", "/a", "a.", "1-", "-1", "a-a", "1.1", ":a", "a-1.", "C", "Ca", "aA", ",", "1,", "a,", "9", "0", "\"", "'", "\"'"]
 GENERIC_BLOCKS = [["a", "-", "1"], ["/", "-", "."], ["a", ":", "1"], ["1", ".", "1"], ["a", "-", "a"], ["a/", "a-", "a."],
                   ["-", ":", "-"], ["A", "a", "-"], ["1", "-", "1"], ["1", ",", "1"]]
-GENERIC_PREFIX = ["", "a", "1", "RC-", "a-0:1-", "n:s:", "F-22-20150522", "1-", "1,"]
+GENERIC_PREFIX = ["", "a", "1", "RC-", "a-0:1-", "n:s:", "F-22-20150522", "1-", "1,", "1e", "F-22-20150522.n.1-"]
 GENERIC_SUFFIX = ["", "!", "\n", ".x86_64",
                   # valid tails: the pump sits in front of an input the target ACCEPTS (cost blow-ups of accepted inputs)
                   "n:s", "a:1:2:c", "a-0:1-1.noarch", "a-1", "f-23-updates", "RC-1.0", "20150522.n.0", "1.0", "a"]
@@ -363,7 +363,7 @@ def run_shard(ctx):
             continue
         # field-in-document targets get a reduced grid (each call loads a whole document)
         in_doc = ".loads:" in name
-        for pre in (GENERIC_PREFIX if not in_doc else ["", "a", "1", "1-"]):
+        for pre in (GENERIC_PREFIX if not in_doc else ["", "a", "1", "1-", "1e"]):
             for pump in GENERIC_ATOMS:
                 for suf in (GENERIC_SUFFIX if not in_doc else ["", "!", "a"]):
                     families.append({"prefix": pre, "pump": pump, "suffix": suf, "target": {"kind": "callable", "name": name}})
